@@ -11,6 +11,7 @@ sim_hooks_t sim_hooks;
 uint64_t sim_now = 1000;
 FILE *sim_trace;
 int sim_trace_io = 1;
+int sim_trace_dg = 1;              /* log the simulator's own Tx / Rx / Lost / Tick events */
 int sim_steps;
 
 typedef struct { int used; int epfd; int fd; coap_socket_t *sock; uint32_t events; } sim_sock_t;
@@ -355,6 +356,7 @@ log_hdr(const char *ev, int node, int sid, const uint8_t *d, size_t len, const s
     else if (tkl == 13 && len >= 5 && len >= 5u + d[4] + 13u && d[4] + 13u <= 24)
       tr_hex(tok, d + 5, d[4] + 13u);
   }
+  if (sim_trace_dg)
   tr("\"e\":\"%s\",\"node\":%d,\"s\":%d,\"enc\":%d,\"ty\":%u,\"code\":%u,\"mid\":%u,\"tok\":\"%s\","
      "\"len\":%zu,\"sig\":%u,\"dg\":%d,\"org\":%d,\"copies\":%d,\"dly\":%u,\"sport\":%u,\"dport\":%u",
      ev, node, sid, enc, ty, code, mid, tok, len, sim_sig(d, len), dg->id, dg->origin, copies, maxdly,
@@ -480,7 +482,7 @@ peer_deliveries(void) {
       /* destination socket may have disappeared (session closed): discard */
       if (!find_sock_for(dg, NULL)) {
         dg->taken = 1;
-        tr("\"e\":\"Lost\",\"dg\":%d", dg->id);
+        if (sim_trace_dg) tr("\"e\":\"Lost\",\"dg\":%d", dg->id);
       }
       continue;
     }
@@ -531,13 +533,13 @@ sim_run(uint64_t until) {
     if (next == UINT64_MAX || next > until) {
       if (until != UINT64_MAX && until > sim_now) {
         sim_now = until;
-        tr("\"e\":\"Tick\"");
+        if (sim_trace_dg) tr("\"e\":\"Tick\"");
       }
       return sim_now;
     }
     if (next > sim_now) {
       sim_now = next;
-      tr("\"e\":\"Tick\"");
+      if (sim_trace_dg) tr("\"e\":\"Tick\"");
     } else {
       /* event at the current instant that a round did not consume: run another round, bounded */
       if (++sim_steps > 200000) {
